@@ -7,6 +7,14 @@ TRUST = ("TLC 1.8 evaluates the TLA+ judge; harness/lib.py projections (real obj
          "of abstract cases are trusted; bounds as stated in the evidence file")
 
 CHECKS = {
+ "C13": dict(
+    text="VolPrim.tla states every primitive volume twice in exact rational arithmetic (units of pi): as the defining integral of the solid of revolution "
+         "(Truth) and as the formula / five-way case analysis the code uses (Code: cap, frustum, lens with disjoint / nested cases, sphere-frustum "
+         "intersection with the point where the cone leaves the ball). TLC proves Code = Truth on the whole integer grid, that every branch of the case "
+         "analysis is reached and that the boundaries between branches (h = r, equal radii, cone leaving exactly at the far end, tangent and nested balls) "
+         "are on the grid. Every grid point is then evaluated by the real library at 7 placements (axis, oblique, generic directions; frustum given from "
+         "either end; offsets) and 3 length units and compared with the integral by TLC (relative 5e-8 / 5e-6)",
+    design="4/C13", technique="TLA+ exact-rational specification: closed forms vs defining integrals checked by TLC on a grid covering every case region; grid replayed into the code, TLC-judged"),
  "C12": dict(
     text="Affine.tla defines translation, scaling, axis rotations, Rodrigues rotation and conjugation about a centre as 4x4 matrices over exact rationals "
          "(angles with rational sine and cosine, rational unit axes). TLC proves over the whole parameter grid, in exact arithmetic, that the chosen centre "
